@@ -148,6 +148,7 @@ func (h *DirHandler) GetOutbound(fws ...fbb.Address) []*fbb.Message {
 		if len(fws) > 0 {
 			for _, fw := range fws {
 				if m.IsOnlyReceiver(fw) {
+					removePrivateHeaders(m)
 					deliver = append(deliver, m)
 					break
 				}
@@ -159,14 +160,17 @@ func (h *DirHandler) GetOutbound(fws ...fbb.Address) []*fbb.Message {
 			continue // The message is P2POnly and remote is CMS
 		}
 
-		// Remove private headers
-		m.Header.Del("X-P2POnly")
-		m.Header.Del("X-FilePath")
-		m.Header.Del("X-Unread")
-
+		removePrivateHeaders(m)
 		deliver = append(deliver, m)
 	}
 	return deliver
+}
+
+// removePrivateHeaders removes the headers that are private to this mailbox and must not be sent to a remote.
+func removePrivateHeaders(m *fbb.Message) {
+	m.Header.Del("X-P2POnly")
+	m.Header.Del("X-FilePath")
+	m.Header.Del("X-Unread")
 }
 
 // Deprecated: implementers should choose their own directories
